@@ -82,8 +82,11 @@ func provablyNonNilErr(v ssa.Value, b *ssa.BasicBlock) bool {
 	case *ssa.MakeInterface:
 		return true
 	case *ssa.UnOp:
-		if g, ok := x.X.(*ssa.Global); ok && len(g.Name()) > 3 && (g.Name()[:3] == "err" || g.Name()[:3] == "Err") {
-			return true
+		if g, ok := x.X.(*ssa.Global); ok && types.Identical(x.Type(), errorType) {
+			n := g.Name()
+			if n == "EOF" || (len(n) > 3 && (n[:3] == "err" || n[:3] == "Err")) {
+				return true
+			}
 		}
 	case *ssa.Phi:
 		for _, e := range x.Edges {
